@@ -73,13 +73,21 @@ def mag_pair(r: fb.Rng, zero_ok=True):
 def geo_pair(P, r: fb.Rng, zero_ok=True, big=True, rel=None):
     """two geometric numbers whose angles stand in a chosen relation; returns (a, b, relation)"""
     ma, mb = mag_pair(r, zero_ok)
-    rel = rel or r.choice(['same', 'opposite', 'near-par', 'near-opp', 'orth', 'orth-near', 'turns', 'any', 'any', 'any'])
+    rel = rel or r.choice(['same', 'opposite', 'opp-turns', 'near-par', 'near-opp', 'orth', 'orth-near', 'turns', 'any', 'any', 'any'])
     ra = rem_class(r); ba = blade_class(r, big)
     aa = angle_rem(P, ra, ba)
     if rel == 'same':
         ab = aa
     elif rel == 'opposite':
         ab = P.add(r.choice(['ANeg', 'ADual', 'AConj']), aa)
+    elif rel == 'opp-turns':
+        # exactly opposite DIRECTION but NOT a half turn apart as values: blade gap 6, 10, 14, 4k+2 (equal remainders), either operand ahead
+        k = r.choice([1, 2, 3, 250000, 2**29])
+        turned = P.add('AAdd', 0, aa, P.add('ANewBlade', P.u(4 * k + 2), P.f(0.0), P.f(1.0)))
+        if r.chance(0.5):
+            ab = turned
+        else:
+            aa, ab = turned, aa
     elif rel in ('near-par', 'near-opp'):
         d = r.choice([1e-15, 2e-15, 1e-14, 1e-12, 1e-10, 2e-10, 1e-9, 1e-8, 1e-6, 3e-16, 1e-5, 1e-4, 1e-3, 5e-3, 9e-3, 2e-2, 4.9e-2, r.logu(1e-7, 0.1)]) * r.choice([1, -1])
         rb = min(max(ra + d, 0.0), fb.Q - 2e-10)
